@@ -105,7 +105,7 @@ func historyFactsOf(c historyCase) historyFacts {
 }
 
 func TestC13_Histories(t *testing.T) {
-	mix := opMix{sets: true, badSets: true, setNullContainer: true}
+	mix := opMix{sets: true, badSets: true, setNullContainer: true, nullRoot: true}
 	runRapid(t, "C13_Histories", nCases(100_000, 2_000_000), func(t *rapid.T) {
 		maxOps := 12
 		if thorough() {
@@ -300,7 +300,7 @@ func valueTextMatches(out []byte, n *rj.Node, what string) error {
 }
 
 func TestC14_Histories(t *testing.T) {
-	mix := opMix{sets: true, delObj: true, delArr: true, setNullContainer: true}
+	mix := opMix{sets: true, delObj: true, delArr: true, setNullContainer: true, nullRoot: true}
 	runRapid(t, "C14_Histories", nCases(100_000, 2_000_000), func(t *rapid.T) {
 		maxOps := 10
 		if thorough() {
@@ -461,7 +461,7 @@ func c10Nontrivial(c historyCase) bool {
 }
 
 func TestC10_Histories(t *testing.T) {
-	mix := opMix{sets: true, delObj: true, delArr: true, setNullContainer: true, nonFinite: true}
+	mix := opMix{sets: true, delObj: true, delArr: true, setNullContainer: true, nonFinite: true, nullRoot: true}
 	runRapid(t, "C10_Histories", nCases(150_000, 3_000_000), func(t *rapid.T) {
 		maxOps := 6
 		if thorough() {
